@@ -32,6 +32,7 @@ func runC11(c *report.Ctx) {
 	ruleBucketCacheKey(c)
 	ruleOverlaySequence(c)
 	ruleWholeBucketLimit(c)
+	rulePrefixTerminated(c)
 
 	// ---- (2) writer exclusion ----------------------------------------------------------------------
 	c.Rule("writer-lock", "BeginTx acquires LevelDB.muTr and returns holding it; Commit and Rollback release it exactly when the transaction is a write transaction", 4)
